@@ -27,6 +27,7 @@ Non-trivial = F with at least one expanded stream; distinct = hash of F.",
     replay,
     exh: None,
     totality: true,
+    aggregate: None,
 };
 
 const GUARD: usize = 4096;
